@@ -72,7 +72,7 @@ def rich_world(seed, n_chroms=6, genes_per_chrom=3, groups=3, multimappers=True,
     rng = w.rng
     for ci in range(n_chroms):
         cname = "chr%d" % (ci + 1)
-        w.add_chrom(cname, 60000 + ci * 4321 + genes_per_chrom * 9000 + extra_len + (65000 if zoo else 0))
+        w.add_chrom(cname, 60000 + ci * 4321 + genes_per_chrom * 9000 + extra_len + (130000 if zoo else 0))
         pos = 1500
         for gi in range(genes_per_chrom):
             gid = "G%d_%d" % (ci + 1, gi + 1)
@@ -499,7 +499,100 @@ def ambiguous_only_locus(w, gid, chrom, p, strand, n_reads=6):
     return g, p + 3700
 
 
-ZOO_ALL = ("ambiguous_only", "twins", "contested", "intronic", "apa", "alt_terminal", "shifted_site", "shared_chain", "same_coords")
+def one_bp_exon_locus(w, gid, chrom, p, strand):
+    """Annotated transcripts with a ONE-base exon: t1 internal (expressed), t2 terminal (not expressed)."""
+    t1 = [(p, p + 300), (p + 900, p + 900), (p + 1500, p + 1800), (p + 2400, p + 2700)]
+    t2 = [(p, p + 300), (p + 1500, p + 1800), (p + 3300, p + 3300)]
+    g = Gene(gid, chrom, strand)
+    g.transcripts.append(Transcript(gid + ".t1", gid, chrom, strand, t1, True, "one-base-exon"))
+    g.transcripts.append(Transcript(gid + ".t2", gid, chrom, strand, t2, True, "one-base-exon"))
+    for t in g.transcripts:
+        for intr in t.introns:
+            w.plant_sites(chrom, intr, strand)
+    w.genes.append(g)
+    for _ in range(10):
+        w.make_read(chrom, list(t1), polya=30 if strand == "+" else 0, polyt=30 if strand == "-" else 0, flag=0 if strand == "+" else 16,
+                    truth={"src": gid + ".t1", "class": "exact-with-one-base-exon"})
+    return g, p + 3300
+
+
+def lowmapq_two_exon_locus(w, gid, chrom, p, strand):
+    """Unannotated two-exon isoform: 4 full-length tailed reads with MAPQ 60 and 12 unspliced MAPQ-3 fragments inside its 3' exon
+    (the fragments attach to the model later and pull its mean mapping quality down)."""
+    ex = [(p, p + 400), (p + 1200, p + 1900)]
+    g = Gene(gid, chrom, strand)
+    g.hidden.append(Transcript(gid + ".h1", gid, chrom, strand, ex, False, "two-exon-low-mapq"))
+    w.plant_sites(chrom, g.hidden[0].introns[0], strand)
+    w.genes.append(g)
+    for _ in range(4):
+        w.make_read(chrom, list(ex), polya=30 if strand == "+" else 0, polyt=30 if strand == "-" else 0, flag=0 if strand == "+" else 16,
+                    truth={"src": gid + ".h1", "class": "full-length", "annotated": False})
+    inner = ex[1] if strand == "+" else ex[0]
+    for k in range(12):
+        s_ = inner[0] + 20 + 7 * k
+        w.make_read(chrom, [(s_, min(inner[1] - 5, s_ + 220))], mapq=3, truth={"src": gid + ".h1", "class": "unspliced-low-mapq-fragment"})
+    return g, p + 1900
+
+
+def mono_only_locus(w, gid, chrom, p, strand):
+    """Isolated locus made of single-exon genes only: exact reads of each, and spliced reads that jump over the second one."""
+    g1 = Gene(gid + "a", chrom, strand)
+    g1.transcripts.append(Transcript(gid + "a.t1", gid + "a", chrom, strand, [(p + 600, p + 1500)], True, "mono-only"))
+    g2 = Gene(gid + "b", chrom, strand)
+    g2.transcripts.append(Transcript(gid + "b.t1", gid + "b", chrom, strand, [(p + 3000, p + 3600)], True, "mono-only"))
+    w.genes += [g1, g2]
+    for _ in range(9):
+        w.make_read(chrom, [(p + 600, p + 1500)], truth={"src": gid + "a.t1", "class": "exact-mono"})
+    for _ in range(7):
+        w.make_read(chrom, [(p + 3000, p + 3600)], truth={"src": gid + "b.t1", "class": "exact-mono"})
+    w.plant_sites(chrom, (p + 2801, p + 3799), strand)
+    for _ in range(5):
+        w.make_read(chrom, [(p + 2500, p + 2800), (p + 3800, p + 4100)], truth={"src": gid + "b.t1", "class": "spliced-over-mono-gene"})
+    return [g1, g2], p + 4100
+
+
+def gap_gene_locus(w, gid, chrom, p, strand):
+    """Gene G with two NON-overlapping isoforms 25 kb apart and another gene H between them: the regions of reads are G, H, G."""
+    ga = [(p, p + 400), (p + 1000, p + 1300), (p + 2200, p + 2600)]
+    gb = [(p + 28000, p + 28400), (p + 29000, p + 29300), (p + 30200, p + 30600)]
+    h = [(p + 14000, p + 14400), (p + 15000, p + 15300), (p + 16200, p + 16600)]
+    g = Gene(gid + "G", chrom, strand)
+    g.transcripts.append(Transcript(gid + "G.t1", gid + "G", chrom, strand, ga, True, "gap-gene"))
+    g.transcripts.append(Transcript(gid + "G.t2", gid + "G", chrom, strand, gb, True, "gap-gene"))
+    gh = Gene(gid + "H", chrom, strand)
+    gh.transcripts.append(Transcript(gid + "H.t1", gid + "H", chrom, strand, h, True, "gap-gene-inner"))
+    for t in g.transcripts + gh.transcripts:
+        for intr in t.introns:
+            w.plant_sites(chrom, intr, strand)
+    w.genes += [g, gh]
+    for t in g.transcripts + gh.transcripts:
+        for _ in range(10):
+            w.make_read(chrom, list(t.exons), polya=30 if strand == "+" else 0, polyt=30 if strand == "-" else 0, flag=0 if strand == "+" else 16,
+                        truth={"src": t.id, "class": "exact"})
+    return [g, gh], p + 30600
+
+
+def gene_valley_locus(w, gid, chrom, p, strand):
+    """Four-exon gene with a 36-kb middle intron; nested reads over exons 1-2 and 3-4 (3' ends in different 256-bp bins), full-length
+    reads bridging the coverage-1 stretch: the cluster is longer than 32 kb and is processed in two regions."""
+    rng = w.rng
+    gx = [(p, p + 900), (p + 2000, p + 2900), (p + 38900, p + 39800), (p + 41400, p + 42300)]
+    g = Gene(gid, chrom, strand)
+    g.transcripts.append(Transcript(gid + ".t1", gid, chrom, strand, list(gx), True, "gene-over-valley"))
+    for intr in g.transcripts[0].introns:
+        w.plant_sites(chrom, intr, strand)
+    w.genes.append(g)
+    for k in range(14):
+        w.make_read(chrom, [(gx[0][0] + 60 * (k % 7), gx[0][1]), (gx[1][0], gx[1][1] - 55 * k)], truth={"src": gid + ".t1", "class": "left-part"})
+        w.make_read(chrom, [(gx[2][0] + 60 * (k % 7), gx[2][1]), (gx[3][0], gx[3][1] - 55 * k)], truth={"src": gid + ".t1", "class": "right-part"})
+    for k in range(2):
+        w.make_read(chrom, [(gx[0][0] + 3 + k, gx[0][1])] + gx[1:3] + [(gx[3][0], gx[3][1] - 5 - k)], truth={"src": gid + ".t1", "class": "bridge"})
+    return g, p + 42300
+
+
+ZOO_ALL = ("ambiguous_only", "twins", "contested", "intronic", "apa", "alt_terminal", "shifted_site", "shared_chain", "same_coords",
+           "one_bp_exon", "lowmapq_two_exon", "mono_only", "gap_gene", "gene_valley")
+ZOO_NO_TIES = tuple(z for z in ZOO_ALL if z != "twins")
 
 
 def add_zoo(w, parts=ZOO_ALL):
@@ -569,6 +662,21 @@ def add_zoo(w, parts=ZOO_ALL):
             g, _ = shared_chain_locus(w, "ZSC" + tag, chrom, _free_pos(w, chrom), "+-"[ci % 2])
             _reads_for(w, g, modes=("full", "full", "trunc5", "trunc3"))
             placed.add("shared_chain")
+        if "one_bp_exon" in parts and room(6500):
+            one_bp_exon_locus(w, "Z1BP" + tag, chrom, _free_pos(w, chrom), "+-"[ci % 2])
+            placed.add("one_bp_exon")
+        if "lowmapq_two_exon" in parts and room(5000):
+            lowmapq_two_exon_locus(w, "ZLQ" + tag, chrom, _free_pos(w, chrom), "+-"[(ci + 1) % 2])
+            placed.add("lowmapq_two_exon")
+        if "mono_only" in parts and room(9000):
+            mono_only_locus(w, "ZMO" + tag, chrom, _free_pos(w, chrom, 4000), "+-"[ci % 2])
+            placed.add("mono_only")
+        if "gap_gene" in parts and ci == 1 and room(36000):
+            gap_gene_locus(w, "ZGAP" + tag, chrom, _free_pos(w, chrom, 4000), "+-"[ci % 2])
+            placed.add("gap_gene")
+        if "gene_valley" in parts and ci == 0 and room(48000):
+            gene_valley_locus(w, "ZVAL" + tag, chrom, _free_pos(w, chrom, 4000), "+-"[ci % 2])
+            placed.add("gene_valley")
     return placed
 
 
